@@ -77,16 +77,23 @@ type key struct {
 }
 
 // Ctx owns a term table. Not safe for concurrent use.
+type exKey struct {
+	id    int32
+	lo, w uint8
+}
+
 type Ctx struct {
-	tab   map[key]*Term
-	Terms []*Term
-	Syms  []*Term
-	True  *Term
-	False *Term
+	linMemo map[int32]*lin
+	exMemo  map[exKey]*Term
+	tab     map[key]*Term
+	Terms   []*Term
+	Syms    []*Term
+	True    *Term
+	False   *Term
 }
 
 func NewCtx() *Ctx {
-	c := &Ctx{tab: map[key]*Term{}}
+	c := &Ctx{tab: map[key]*Term{}, exMemo: map[exKey]*Term{}, linMemo: map[int32]*lin{}}
 	c.False = c.mk(OConst, 0, nil, nil, nil, 0, "")
 	c.True = c.mk(OConst, 0, nil, nil, nil, 1, "")
 	return c
@@ -255,6 +262,25 @@ func (c *Ctx) Eq(a, b *Term) *Term {
 			return c.Not(a)
 		}
 	}
+	if a.W != 0 && (isArith(a) || isArith(b)) {
+		if l, r, ok := c.linEq(a, b); ok {
+			if l.W == 0 {
+				return r // constant outcome
+			}
+			return c.eqStruct(l, r)
+		}
+	}
+	return c.eqStruct(a, b)
+}
+
+// eqStruct applies the structural equality rules (no linear normalisation).
+func (c *Ctx) eqStruct(a, b *Term) *Term {
+	if a == b {
+		return c.True
+	}
+	if a.Op == OConst && b.Op == OConst {
+		return c.Bool(a.K == b.K)
+	}
 	// normalise: constant on the right
 	if a.Op == OConst {
 		a, b = b, a
@@ -284,6 +310,15 @@ func (c *Ctx) Eq(a, b *Term) *Term {
 	}
 	if a.Op == OZExt && b.Op == OZExt && a.A.W == b.A.W {
 		return c.Eq(a.A, b.A)
+	}
+	if a.Op == OConcat {
+		lw := a.B.W
+		if b.Op == OConcat && b.B.W == lw {
+			return c.And(c.Eq(a.A, b.A), c.Eq(a.B, b.B))
+		}
+		if b.Op == OConst {
+			return c.And(c.Eq(a.A, c.Const(b.K>>lw, a.A.W)), c.Eq(a.B, c.Const(b.K, lw)))
+		}
 	}
 	if a.ID > b.ID && b.Op != OConst {
 		a, b = b, a
@@ -456,8 +491,37 @@ func (c *Ctx) Bin(op Op, a, b *Term) *Term {
 	}
 	switch op {
 	case OAdd:
+		if t := c.addAsConcat(a, b); t != nil {
+			return t
+		}
+		if t := c.addAsConcat(b, a); t != nil {
+			return t
+		}
+		return c.fromLin(linAdd(c.linOf(a), c.linOf(b), 1, w), w)
+	case OSub:
+		return c.fromLin(linAdd(c.linOf(a), c.linOf(b), ^uint64(0), w), w)
+	case OMul:
+		if b.Op == OConst {
+			return c.fromLin(linScale(c.linOf(a), b.K, w), w)
+		}
+		if a.Op == OConst {
+			return c.fromLin(linScale(c.linOf(b), a.K, w), w)
+		}
+	case OShl:
+		if b.Op == OConst && b.K < uint64(w) {
+			return c.fromLin(linScale(c.linOf(a), uint64(1)<<b.K, w), w)
+		}
+	}
+	switch op {
+	case OAdd:
 		if a.Op == OConst {
 			a, b = b, a
+		}
+		if t := c.addAsConcat(a, b); t != nil {
+			return t
+		}
+		if t := c.addAsConcat(b, a); t != nil {
+			return t
 		}
 		if b.Op == OConst {
 			if b.K == 0 {
@@ -583,6 +647,35 @@ func (c *Ctx) Bin(op Op, a, b *Term) *Term {
 	return c.mk(op, w, a, b, nil, 0, "")
 }
 
+// addAsConcat recognises lo + hi*2^k with non-overlapping bits: lo = zext(x), |x| <= k,
+// hi = zext(y)*2^k (or shl), |y|+k <= w, and returns zext(concat(y, zext_k(x))).
+func (c *Ctx) addAsConcat(lo, hi *Term) *Term {
+	w := lo.W
+	var x *Term
+	switch {
+	case lo.Op == OZExt:
+		x = lo.A
+	default:
+		return nil
+	}
+	var y *Term
+	var k uint64
+	switch {
+	case hi.Op == OMul && hi.B.Op == OConst && hi.B.K != 0 && hi.B.K&(hi.B.K-1) == 0 && hi.A.Op == OZExt:
+		y = hi.A.A
+		k = uint64(bits.TrailingZeros64(hi.B.K))
+	case hi.Op == OShl && hi.B.Op == OConst && hi.A.Op == OZExt:
+		y = hi.A.A
+		k = hi.B.K
+	default:
+		return nil
+	}
+	if uint64(x.W) > k || uint64(y.W)+k > uint64(w) || k == 0 {
+		return nil
+	}
+	return c.ZExt(c.Concat(y, c.ZExt(x, uint8(k))), w)
+}
+
 func (c *Ctx) BNot(a *Term) *Term {
 	if a.Op == OConst {
 		return c.Const(^a.K, a.W)
@@ -597,7 +690,7 @@ func (c *Ctx) Neg(a *Term) *Term {
 	if a.Op == OConst {
 		return c.Const(-a.K, a.W)
 	}
-	return c.mk(ONeg, a.W, a, nil, nil, 0, "")
+	return c.fromLin(linScale(c.linOf(a), ^uint64(0), a.W), a.W)
 }
 
 func (c *Ctx) ZExt(a *Term, w uint8) *Term {
@@ -638,6 +731,19 @@ func (c *Ctx) Extract(a *Term, lo uint8, w uint8) *Term {
 	if lo == 0 && w == a.W {
 		return a
 	}
+	if a.Op != OConst {
+		k := exKey{a.ID, lo, w}
+		if r, ok := c.exMemo[k]; ok {
+			return r
+		}
+		r := c.extract(a, lo, w)
+		c.exMemo[k] = r
+		return r
+	}
+	return c.extract(a, lo, w)
+}
+
+func (c *Ctx) extract(a *Term, lo uint8, w uint8) *Term {
 	if uint(lo)+uint(w) > uint(a.W) || w == 0 {
 		panic("Extract out of range")
 	}
@@ -671,15 +777,24 @@ func (c *Ctx) Extract(a *Term, lo uint8, w uint8) *Term {
 			return c.Extract(a.A, lo-lw, w)
 		}
 	}
-	// extract of low bits distributes over add/sub/mul/and/or/xor
+	// the low w bits of these operations depend only on the low w bits of the operands
 	if lo == 0 {
 		switch a.Op {
 		case OAdd, OSub, OMul, OBAnd, OBOr, OBXor:
-			// only when it strictly helps (an operand collapses); keep simple: when both
-			// operands are zext/const
-			if isNarrowable(a.A, w) && isNarrowable(a.B, w) {
-				return c.Bin(a.Op, c.Extract(a.A, 0, w), c.Extract(a.B, 0, w))
+			return c.Bin(a.Op, c.Extract(a.A, 0, w), c.Extract(a.B, 0, w))
+		case ONeg:
+			return c.Neg(c.Extract(a.A, 0, w))
+		case OBNot:
+			return c.BNot(c.Extract(a.A, 0, w))
+		case OShl:
+			if a.B.Op == OConst {
+				if a.B.K >= uint64(w) {
+					return c.Const(0, w)
+				}
+				return c.Bin(OShl, c.Extract(a.A, 0, w), c.Const(a.B.K, w))
 			}
+		case OIte:
+			return c.Ite(a.C, c.Extract(a.A, 0, w), c.Extract(a.B, 0, w))
 		}
 	}
 	return c.mk(OExtract, w, a, nil, nil, uint64(lo), "")
